@@ -338,7 +338,8 @@ def run_world(ctx, case, index=0):
     for order in ("genes-first", "areas-first", "interleaved", "late-areas", "cleared-regions", "second-run"):
         try:
             record = build_world(case, order, ctx.rng("order", index))
-        except Exception as err:  # pylint: disable=broad-except
+        except ValueError as err:
+            # the layout is refused while areas are formed (C05/C06's subject); anything else reaches the guard
             ctx.count(f"skipped:world-build-raised:{type(err).__name__}")
             return
         dumps[order] = membership_dump(ctx, record, dict(case, order=order))
